@@ -71,6 +71,12 @@ func (d *driver) violation(tag string, desc map[string]any) {
 	d.nviol++
 }
 
+// bail: stop the run; every child process is killed first (os.Exit skips the deferred close)
+func (d *driver) bail() {
+	d.w.close()
+	os.Exit(2)
+}
+
 func (d *driver) newCache() string {
 	d.ncache++
 	return filepath.Join(d.w.root, fmt.Sprintf("cache-%d", d.ncache))
@@ -86,13 +92,13 @@ func (d *driver) ref(rev int, pkgs []string) string {
 	r := d.w.run(runSpec{Pkgs: pkgs})
 	if !r.Res.OK {
 		fmt.Fprintf(os.Stderr, "reference build failed: %+v\n", r)
-		os.Exit(2)
+		d.bail()
 	}
 	// a build without cache is itself reproducible (otherwise nothing below means anything)
 	r2 := d.w.run(runSpec{Pkgs: pkgs})
 	if r2.Res.Digest != r.Res.Digest {
 		fmt.Fprintf(os.Stderr, "reference build not reproducible: %s vs %s\n", r.Res.Digest, r2.Res.Digest)
-		os.Exit(2)
+		d.bail()
 	}
 	d.refs[k] = r.Res.Digest
 	d.refRes[k] = r.Res
@@ -341,6 +347,36 @@ func (c crashSpec) term() string {
 // hookFor translates "killed after k atomic steps of phase X" to the hook
 // point and hit number. idxInProc: the index is downloaded by the same
 // process first (one more symlink attempt before the package's).
+// ctlLast: does cachePackage in the source under test advertise the control section last
+// (fixes/C19-F2.patch applied)? Read from the source text like goextract does for the model.
+var ctlLast = func() bool {
+	src, err := os.ReadFile(filepath.Join(os.Getenv("VERIF_REPO"), "pkg/apk/apk/implementation.go"))
+	if err != nil {
+		src, err = os.ReadFile("/repo/pkg/apk/apk/implementation.go")
+	}
+	if err != nil {
+		return false
+	}
+	t := string(src)
+	return strings.Index(t, `verifhook.Point("pkg.post-advertise-ctl")`) > strings.Index(t, `verifhook.Point("pkg.post-advertise-tar")`)
+}()
+
+// advOrder: the sections in the order cachePackage advertises them
+func advOrder(signed bool) []string {
+	var o []string
+	if !ctlLast {
+		o = append(o, "ctl")
+	}
+	if signed {
+		o = append(o, "sig")
+	}
+	o = append(o, "dat", "tar")
+	if ctlLast {
+		o = append(o, "ctl")
+	}
+	return o
+}
+
 func hookFor(c crashSpec, signed, idxInProc bool) string {
 	base := 0
 	if idxInProc {
@@ -370,14 +406,8 @@ func hookFor(c crashSpec, signed, idxInProc bool) string {
 				return "expand.streams-closed#1"
 			case 15, 17, 19, 21:
 				return fmt.Sprintf("advertise.pre-symlink#%d", base+(c.K-13)/2)
-			case 16:
-				return "pkg.post-advertise-ctl#1"
-			case 18:
-				return "pkg.post-advertise-sig#1"
-			case 20:
-				return "pkg.post-advertise-dat#1"
-			case 22:
-				return "pkg.post-advertise-tar#1"
+			case 16, 18, 20, 22:
+				return "pkg.post-advertise-" + advOrder(true)[(c.K-16)/2] + "#1"
 			}
 		} else {
 			switch c.K {
@@ -395,12 +425,8 @@ func hookFor(c crashSpec, signed, idxInProc bool) string {
 				return "expand.streams-closed#1"
 			case 12, 14, 16:
 				return fmt.Sprintf("advertise.pre-symlink#%d", base+(c.K-10)/2)
-			case 13:
-				return "pkg.post-advertise-ctl#1"
-			case 15:
-				return "pkg.post-advertise-dat#1"
-			case 17:
-				return "pkg.post-advertise-tar#1"
+			case 13, 15, 17:
+				return "pkg.post-advertise-" + advOrder(false)[(c.K-13)/2] + "#1"
 			}
 		}
 	}
@@ -443,7 +469,7 @@ func (d *driver) runScenario(name, pkg string, builds []sbuild) {
 		if sb.Flip > 0 {
 			if !idxInProc {
 				fmt.Fprintf(os.Stderr, "scenario %s: a flip needs a build that downloads the index\n", name)
-				os.Exit(2)
+				d.bail()
 			}
 			d.w.flipAfterHead(sb.Flip)
 		}
@@ -452,7 +478,7 @@ func (d *driver) runScenario(name, pkg string, builds []sbuild) {
 			hook = hookFor(sb.Crash, signed, idxInProc)
 			if hook == "" {
 				fmt.Fprintf(os.Stderr, "no hook for %+v\n", sb.Crash)
-				os.Exit(2)
+				d.bail()
 			}
 		}
 		hooks = append(hooks, hook)
@@ -702,15 +728,21 @@ func (d *driver) stageForced() {
 		waitAt string // where builder A is held
 		bCrash string // where builder B is killed ("" = runs to the end)
 		bWait  string // alternatively: where builder B is held while A finishes
+		pre    string // a preliminary build on the same cache, killed at this point
 	}
 	cases := []fc{
 		// A holds between advertising .dat.tar.gz and .dat.tar; B (a complete build) rebuilds the tar in place
-		{"hold-A-before-tar/B-complete", "pkg.post-advertise-dat#1", "", ""},
+		{"hold-A-before-tar/B-complete", "pkg.post-advertise-dat#1", "", "", ""},
 		// A holds before its first symlink; B populates everything; A then finds every destination present
-		{"hold-A-before-ctl/B-complete", "pkg.pre-advertise-ctl#1", "", ""},
-		{"hold-A-at-pre-symlink/B-complete", "advertise.pre-symlink#2", "", ""},
+		{"hold-A-before-ctl/B-complete", "pkg.pre-advertise-ctl#1", "", "", ""},
+		{"hold-A-at-pre-symlink/B-complete", "advertise.pre-symlink#2", "", "", ""},
 		// B is HELD inside the rebuild (empty file under the final name) while A finishes: no process is killed
-		{"hold-A-before-tar/B-held-in-rebuild", "pkg.post-advertise-dat#1", "", "rebuild.created#1"},
+		{"hold-A-before-tar/B-held-in-rebuild", "pkg.post-advertise-dat#1", "", "rebuild.created#1", ""},
+		// TWO concurrent rebuilders of one <hash>.dat.tar (the populating build was killed before advertising
+		// it): A is held inside PackageData right after creating its temporary file, B rebuilds and publishes,
+		// A goes on and publishes its own copy over it (os.Rename replaces atomically). Each needs its OWN
+		// temporary file: with a shared one A's rename finds nothing (mutation rebuild-fixed-tmp)
+		{"killed-before-tar/A-held-in-rebuild/B-rebuilds-too", "rebuild.created#1", "", "", "pkg.post-advertise-dat#1"},
 	}
 	// needs the hook cached.after-sig-stat (fixes/hooks-c19-b.patch); without it B would not be held
 	if src, err := os.ReadFile(filepath.Join(os.Getenv("VERIF_REPO"), "pkg/apk/apk/implementation.go")); err == nil &&
@@ -718,7 +750,7 @@ func (d *driver) stageForced() {
 		// A holds after advertising the control section; B's cachedPackage has seen control present and
 		// signature absent and is held there; A finishes (signature, data, tar advertised); B goes on: a HIT
 		// without the signature section
-		cases = append(cases, fc{"hold-A-after-ctl/B-held-after-sig-stat", "pkg.post-advertise-ctl#1", "", "cached.after-sig-stat#1"})
+		cases = append(cases, fc{"hold-A-after-ctl/B-held-after-sig-stat", "pkg.post-advertise-ctl#1", "", "cached.after-sig-stat#1", ""})
 		d.stats["forced_sig_race_replayed"] = true
 	} else {
 		d.stats["forced_sig_race_replayed"] = false
@@ -727,6 +759,9 @@ func (d *driver) stageForced() {
 	for _, c := range cases {
 		cache := d.newCache()
 		d.w.setRev(0)
+		if c.pre != "" {
+			d.w.run(runSpec{Cache: cache, Pkgs: pk, CrashAt: c.pre})
+		}
 		wfA := filepath.Join(d.w.root, fmt.Sprintf("waitA-%d", d.ncache))
 		wfB := filepath.Join(d.w.root, fmt.Sprintf("waitB-%d", d.ncache))
 		cmdA, resA := d.w.command(runSpec{Cache: cache, Pkgs: pk, WaitAt: c.waitAt, WaitF: wfA})
@@ -968,7 +1003,7 @@ func main() {
 	d.stats["exploration_note"] = "crash, concurrency and tamper experiments are exploration supporting the model; the quantification over all crash points and interleavings is carried by c19_invariant"
 	if err := d.out.Flush(); err != nil {
 		fmt.Fprintln(os.Stderr, err)
-		os.Exit(2)
+		d.bail()
 	}
 	b, _ := json.Marshal(d.stats)
 	fmt.Printf("STAT %s\n", b)
